@@ -22,6 +22,28 @@ EDITS = ['t.name', 't.schema', 't.alias', 't.note', 't.color', 'c.name', 'c.type
          't.note_text', 'c.note_text', 'ix.note_text', 't.note_same', 'c.note_same']
 
 
+def note_frame(db, hd):
+    """the note text of every element that has one, by object: {id: (what, text)}"""
+    out = {}
+    def add(o, what):
+        n = getattr(o, 'note', None)
+        out[id(o)] = (what, getattr(n, 'text', n))
+    for t in hd['tables']:
+        add(t, f'table {t.name!r}')
+        for c in t.columns:
+            add(c, f'column {t.name!r}.{c.name!r}')
+        for ix in t.indexes:
+            add(ix, f'an index of {t.name!r}')
+    for e in hd['enums']:
+        for i in e.items:
+            add(i, f'enum item {e.name!r}.{i.name!r}')
+    for g in hd['groups']:
+        add(g, f'group {g.name!r}')
+    if db.project is not None:
+        add(db.project, 'the project')
+    return out
+
+
 def apply_edit(rng, db, hd, kind, counter):
     """Apply one in-place edit through plain attribute assignment / public methods. Returns a description."""
     T, E, R, G = hd['tables'], hd['enums'], hd['refs'], hd['groups']
@@ -140,7 +162,20 @@ def apply_edit(rng, db, hd, kind, counter):
             if sum(1 for x in E if (x.schema, x.name) == (e.schema, e.name)) > 1:
                 e.name = fresh('en')
         elif kind == 'e.add_item':
-            e.add_item(rng.choice([fresh('it'), EnumItem(fresh('it2'), note='n')]))
+            new = rng.choice([fresh('it'), EnumItem(fresh('it2'), note='n')])
+            e.add_item(new)
+            if isinstance(new, str) and counter % 2 == 0:
+                # two items added by name; then the note of the first is written in place: an edit of one object is an edit of
+                # that object only (no draw: the other choices stay what they were)
+                e.add_item(fresh('itb'))
+                it_ = next(i for i in e.items if i.name == new)
+                before = note_frame(db, hd)
+                put(lambda: it_.note, 'text', fresh('item note'), 'enum item.note.text')
+                after = note_frame(db, hd)
+                for key in before:
+                    if key != id(it_) and before[key] != after.get(key):
+                        lost.append(f'writing the note of enum item {new!r} changed the note of {before[key][0]} from {before[key][1]!r} to {after.get(key, (None, None))[1]!r}')
+                        break
         elif kind == 'e.item_name' and e.items:
             it_ = rng.choice(e.items)
             put(lambda: it_, 'name', fresh('itn'), 'enum item.name')
